@@ -58,6 +58,21 @@ def run(chk):
             raise Violation("total", f"total - sum(terms) = {canon(t) - canon(s)}", "0")
         return msg + "; total == sum(terms)"
 
+    # R6: the stored weight table is what evaluate reads.  A system whose `_loss_weights` (a pytree field of the module, what a
+    # weight-update scheme replaces with eqx.tree_at between two evaluations) was replaced after construction evaluates like
+    # the system constructed with those weights: a copy of the weights taken at construction and kept elsewhere breaks this
+    chk.rule("C13.R6", "a system whose stored weights are replaced after construction evaluates like the system constructed "
+                       "with the new weights (every term, total)", floor=3)
+    from ..lossenv import replaced_field_twin
+    for eq_type, names in all_terms.items():
+        for wk in ('dict', 'scalar'):
+            def go(eq_type=eq_type, names=names, wk=wk):
+                mk = lambda pre: (lambda: SystemLoss(E, eq_type, 'PINN', terms=names, weights=wk, wprefix=pre))
+                if '_loss_weights' not in mk('w')().loss.fields:
+                    raise Inconclusive("the system loss has no `_loss_weights` field any more: where the weights are stored has to be re-read")
+                return replaced_field_twin(mk('w'), mk('v'), '_loss_weights')
+            chk.run("C13.R6", SITE[eq_type], {"loss": eq_type, "weights": wk}, go, construct=f"{eq_type}: stored weights replaced")
+
     wkinds = ['scalar', 'dict', 'float', 'dict_rev']
     for eq_type, names in all_terms.items():
         fields = ('dyn_loss', 'initial_condition', 'observations') if eq_type == 'ODE' else \
